@@ -6,7 +6,8 @@ cd /verif
 m="$1"; shift
 git -C /repo diff --quiet || { echo "/repo is dirty"; exit 9; }
 git -C /repo apply "/verif/seeded/$m/patch.diff" || { echo "patch does not apply"; exit 9; }
-trap 'git -C /repo checkout -- . ' EXIT
+rm -rf /var/tmp/evidence.bak && cp -r /verif/evidence /var/tmp/evidence.bak
+trap 'git -C /repo checkout -- . ; rm -rf /verif/evidence; mv /var/tmp/evidence.bak /verif/evidence' EXIT
 for c in "$@"; do
   out=$(./check "$c" --tier ${TIER:-quick} 2>&1); code=$?
   echo "== $m x $c -> exit $code :: $(echo "$out" | grep -m1 -E 'VIOLATION|INCONCLUSIVE' | cut -c1-200)"
